@@ -1,4 +1,5 @@
 """C17 -- parameter initialisation (structural clauses)."""
+from ..rules import r5 as r5h_mod
 from ..core import Ctx, Ob, PropSpec
 from ..rules import extra2, r1, r3, r4, r4lite, r10
 
@@ -13,6 +14,7 @@ def run(ctx: Ctx) -> list[Ob]:
     obs += r4.initializer_contracts(ctx)
     obs += r10.r10j(ctx)
     obs.append(extra2.must_call_on_all_paths(ctx, 'cirkit.backend.torch.parameters.nodes.TorchTensorParameter.reset_parameters', '_initializer_', 'R4i', 'reset-initialises', 'reset_parameters must re-draw / re-copy every tensor from its initialiser, learnable or not: constants are copied back and frozen random tensors re-drawn on every reset'))
+    obs += r5h_mod.r5h(ctx)
     return obs
 
 
@@ -29,10 +31,11 @@ SPEC = PropSpec(
         "slice t[i:i+1], never the integer index t[i]). R4i (symbolic shape + layout interpretation of dirichlet_): for destination tensors of rank 2..4 (fold axis included) and every dim, the samples are written with exactly the destination's shape for all sizes and the simplex axis -- the one they sum to one along -- sits at dim (moving it with a transposition instead of a move also displaces the last axis: a rank-3 parameter with axis 0 and two different other sizes cannot be initialised)."
         " R4i list alpha: dirichlet_ is also interpreted with a per-category list of concentrations of symbolic length (the guard ties it to shape[dim]): the concentrations must end up along dim, not broadcast along the last axis. R4i reset: every normal exit of TorchTensorParameter.reset_parameters passes through the initialiser call (must-pass-through on the CFG) -- also for tensors that do not require gradients."
         " R10j: TorchCircuit.reset_parameters visits, for every layer, its params and (recursively) the layers in its sub_modules -- the tensors of a layer wrapped by an evidence layer are allocated and initialised with the rest."
+        ' R5h: the two axis idioms put axis 0 on the right side -- in `d if d >= 0 else d + len(shape)` (normalisation) axis 0 stays, in `a if a < 0 else a + 1` (shift past the fold dimension) every non-negative axis, 0 included, moves by one; the branch taken at 0 is derived from the comparison operator of each such conditional expression.'
     ),
     not_decided=(
         "statistical moments of the samples."
     ),
     run=run,
-    floors={"R4i": 9, "R1a": 4, "R1b": 4, "R1c": 12, "R4": 3},
+    floors={"R5h": 8, "R4i": 9, "R1a": 4, "R1b": 4, "R1c": 12, "R4": 3},
 )
